@@ -585,7 +585,7 @@ func c11Run(c *engine.Ctx) {
 		for j := 0; j < n; j++ {
 			c.Eval()
 			if fails, msg := c11CheckPair(U[i], U[j]); fails {
-				c.Violation(univ.Repr(U[i])+" ? "+univ.Repr(U[j]), "order-mismatch", map[string]any{"a": univ.Repr(U[i]), "b": univ.Repr(U[j]), "msg": msg, "ta": univ.ToTagged(U[i]), "tb": univ.ToTagged(U[j])})
+				c.Violation(univ.Repr(U[i])+" ? "+univ.Repr(U[j]), "order-mismatch", map[string]any{"a": univ.Repr(U[i]), "b": univ.Repr(U[j]), "msg": msg, "ta": univ.ToTagged(U[i]), "tb": univ.ToTagged(U[j]), "ui": []int{i, j, j}, "thorough": !c.Quick()})
 			}
 			c.Outcome(fmt.Sprintf("pair:%s/%s:%d", univ.TypeName(U[i]), univ.TypeName(U[j]), RefCompare(U[i], U[j])))
 		}
@@ -608,11 +608,11 @@ func c11Run(c *engine.Ctx) {
 			continue
 		}
 		if M[i][i] != 0 {
-			c.Violation(univ.Repr(U[i]), "not-reflexive", map[string]any{"ta": univ.ToTagged(U[i]), "tb": univ.ToTagged(U[i]), "tc": univ.ToTagged(U[i])})
+			c.Violation(univ.Repr(U[i]), "not-reflexive", map[string]any{"ta": univ.ToTagged(U[i]), "tb": univ.ToTagged(U[i]), "tc": univ.ToTagged(U[i]), "ui": []int{i, i, i}, "thorough": !c.Quick()})
 		}
 		for j := 0; j < n; j++ {
 			if M[i][j] != -M[j][i] {
-				c.Violation(univ.Repr(U[i])+" ? "+univ.Repr(U[j]), "not-antisymmetric", map[string]any{"ta": univ.ToTagged(U[i]), "tb": univ.ToTagged(U[j]), "tc": univ.ToTagged(U[j])})
+				c.Violation(univ.Repr(U[i])+" ? "+univ.Repr(U[j]), "not-antisymmetric", map[string]any{"ta": univ.ToTagged(U[i]), "tb": univ.ToTagged(U[j]), "tc": univ.ToTagged(U[j]), "ui": []int{i, j, j}, "thorough": !c.Quick()})
 			}
 			if M[i][j] > 0 {
 				continue
@@ -621,7 +621,7 @@ func c11Run(c *engine.Ctx) {
 				// a<=b and b<=c imply a<=c, and a==b implies same relation to c
 				if M[j][k] <= 0 && M[i][k] > 0 || M[i][j] == 0 && M[i][k] != M[j][k] {
 					c.Violation(univ.Repr(U[i])+" ? "+univ.Repr(U[j])+" ? "+univ.Repr(U[k]), "not-transitive",
-						map[string]any{"ta": univ.ToTagged(U[i]), "tb": univ.ToTagged(U[j]), "tc": univ.ToTagged(U[k])})
+						map[string]any{"ta": univ.ToTagged(U[i]), "tb": univ.ToTagged(U[j]), "tc": univ.ToTagged(U[k]), "ui": []int{i, j, k}, "thorough": !c.Quick()})
 				}
 			}
 		}
@@ -891,7 +891,23 @@ func c11Run(c *engine.Ctx) {
 
 func c11Replay(v *engine.Violation) (bool, string) {
 	d := v.Detail
-	val := func(k string) any { return univ.FromTagged(d[k]) }
+	var U []any
+	val := func(k string) any {
+		// values of the universe are looked up by index so that shared storage (aliasing) survives
+		if ui, ok := d["ui"].([]any); ok {
+			th, _ := d["thorough"].(bool)
+			if U == nil {
+				U = c11Universe(th)
+			}
+			pos := map[string]int{"ta": 0, "tb": 1, "tc": 2}
+			if p, ok := pos[k]; ok && p < len(ui) {
+				if i := int(ui[p].(float64)); i < len(U) {
+					return U[i]
+				}
+			}
+		}
+		return univ.FromTagged(d[k])
+	}
 	arr := func() []any { a, _ := val("tarr").([]any); return a }
 	switch v.Check {
 	case "pairs":
